@@ -103,7 +103,12 @@ Fixpoint replaceMatch_segs (mr sr : str -> I str) (m : mres) (ngroups : nat)
                end in
       x <-i (if Nat.ltb ngroups i
              then ierr ($"undefined replacement group: " ++ grp0 dm) ;;;i iret []
-             else replaceInline mr sr (grp m i) e') ;;
+             else
+               (* `match[i] or ''`: a non-participating group is blank *)
+               t <-i replaceInline mr sr (Some (grp_s m i)) e' ;;
+               (* a single-$ group lands in an attribute value: a double quote becomes the entity quot *)
+               iret (if str_eqb (grp_s dm 1) $"$" && negb (truthy (e_spans e'))
+                     then replace_all [34] $"&quot;" t else t)) ;;
       rest <-i replaceMatch_segs mr sr m ngroups t e' ;;
       iret (before ++ x ++ rest)
   end.
@@ -215,7 +220,7 @@ Fixpoint find_quote (n : nat) (qre : cre) (text : str) (nextIndex : N) : Res (op
       | None => Ok None
       | Some m =>
           if starts_with [92] (grp0 m)
-          then find_quote n' qre text (nextIndex + m_start m + lenN (grp_s m 1) + 1)
+          then find_quote n' qre text (m_start m + lenN (grp_s m 1) + 1)
           else Ok (Some m)
       end
   end.
